@@ -89,6 +89,7 @@ import (
 	"runtime/debug"
 	"strings"
 	"testing"
+	"time"
 
 	"src.elv.sh/pkg/eval/vals"
 	"src.elv.sh/pkg/eval/vars"
@@ -534,6 +535,28 @@ func verifC42Diff(got, want verifC42Obs) string {
 	return strings.Join(diffs, "\n    ")
 }
 
+// Pipelines in which a form redirects the pipe it was given. No exception is
+// expected in any of them.
+var verifC42Pipelines = []struct {
+	code string
+	f1   string
+	outB string
+	outV []string
+}{
+	// the reading end is replaced by a file / closed / replaced by another port
+	{"echo a | print (slurp) < F1", verifC42Old1, verifC42Old1, nil},
+	{"echo a | put x 0>&-", verifC42Old1, "", []string{"x"}},
+	{"put a | nop 0>&1", verifC42Old1, "", nil},
+	{"range 200 | put x < F1", verifC42Old1, "", []string{"x"}},
+	{"echo a | print (slurp) 0<> F1", verifC42Old1, verifC42Old1, nil},
+	// the writing end is shared through n>&m and then replaced
+	{"{ put x >&3 } 3>&1 > F1 | each {|v| put got-$v }", "", "", []string{"got-x"}},
+	{"{ echo b >&3 } 3>&1 > F1 | print (slurp)", "", "b\n", nil},
+	{"{ echo b >&3; echo c } 3>&1 > F1 | print (slurp)", "c\n", "b\n", nil},
+	// the writing end is replaced without having been shared: downstream sees end of input
+	{"echo b > F1 | print '['(slurp)']'", "b\n", "[]", nil},
+}
+
 func TestVerifBoundedC42(t *testing.T) {
 	thorough := os.Getenv("VERIF_TIER") == "thorough"
 	skipKnown := os.Getenv("VERIF_SKIP_KNOWN") == "1"
@@ -633,6 +656,40 @@ func TestVerifBoundedC42(t *testing.T) {
 		// Ri are repeated from above.)
 		enumerate(3, verifC42Cmds[4:5], []bool{true}, []bool{true})
 	}
+	// Forms inside pipelines whose pipe ends are redirected again. The expected
+	// observations are written out by hand from the same rules (the port a
+	// redirection replaces stops being used by the form; a port shared through
+	// n>&m stays usable; nothing crashes or hangs).
+	for _, pc := range verifC42Pipelines {
+		for _, useTry := range []bool{false, true} {
+			cases++
+			runtime.GC()
+			desc := fmt.Sprintf("pipeline `%s`, F1/F2 pre-exist, try=%v", pc.code, useTry)
+			type res struct {
+				obs     verifC42Obs
+				problem string
+			}
+			done := make(chan res, 1)
+			go func() {
+				obs, _, problem := verifC42Run(base, pc.code, true, useTry)
+				done <- res{obs, problem}
+			}()
+			select {
+			case r := <-done:
+				if r.problem != "" {
+					t.Fatalf("C42 violated for %s:\n    %s", desc, r.problem)
+				}
+				want := verifC42Obs{f1: pc.f1, f2: verifC42Old2, fo: "again\ngo\n",
+					outB: pc.outB + "after-out\n", errB: "after-err\n", outV: pc.outV}
+				if d := verifC42Diff(r.obs, want); d != "" {
+					t.Fatalf("C42 violated for %s:\n    %s", desc, d)
+				}
+			case <-time.After(20 * time.Second):
+				t.Fatalf("C42 violated for %s: the pipeline did not finish within 20 s", desc)
+			}
+		}
+	}
+
 	t.Logf("%d commands, %d redirections in the pool, thorough=%v; %d cases expect an exception; %d cases skipped as known finding (VERIF_SKIP_KNOWN=%v)",
 		len(verifC42Cmds), len(verifC42Redirs), thorough, withExc, skipped, skipKnown)
 	fmt.Printf("BOUNDED name=c42_redir cases=%d\n", cases)
